@@ -80,7 +80,12 @@ Definition resolve_step (wk : option (bytes -> option bytes))
               match wk with
               | Some f =>
                   match f name with
-                  | Some d => delegate d
+                  | Some d =>
+                      (* a delegated name that is not a server name makes the reply invalid *)
+                      match parse_and_validate d with
+                      | Some _ => delegate d
+                      | None => handle_no_well_known srv name
+                      end
                   | None => handle_no_well_known srv name
                   end
               | None => handle_no_well_known srv name
@@ -116,7 +121,10 @@ Definition probes_step (wk : option (bytes -> option bytes))
       | None, None =>
           match wk with
           | Some f => PW name :: match f name with
-                                 | Some d => delegate d
+                                 | Some d => match parse_and_validate d with
+                                             | Some _ => delegate d
+                                             | None => srv_probes srv name
+                                             end
                                  | None => srv_probes srv name
                                  end
           | None => srv_probes srv name
